@@ -291,14 +291,21 @@ mod enigma_line {
 }
 
 fn write_class(class_key: &ObjClassNameSlice, class: &ClassNowodeMapping<2>, w: &mut impl Write, indent: usize) -> Result<()> {
+	// Only a class written inside its parent gets its names shortened, the reader puts the names of the parent
+	// in front of them again. A class at the start of a file keeps its full names, this includes an inner class
+	// whose outer class isn't in the mappings: there is no parent in the file to take the rest of the name from.
+	let nested = indent > 0;
 	let indent = "\t".repeat(indent);
 
 	let [_, dst] = class.info.names.names();
 	// get to only the part after $ if it exists
-	let src = class_key.get_inner_class_name().unwrap_or(class_key);
+	let src = if nested { class_key.get_inner_class_name().unwrap_or(class_key) } else { class_key };
 	// the dst name also stores only the inner class name
 	let dst = dst.as_ref()
-		.map(|dst| dst.get_inner_class_name().unwrap_or(dst));
+		.map(|dst| {
+			let dst: &ObjClassNameSlice = dst;
+			if nested { dst.get_inner_class_name().unwrap_or(dst) } else { dst }
+		});
 
 	write!(w, "{indent}CLASS {src}")?;
 	if let Some(dst) = dst {
